@@ -31,3 +31,8 @@ package vgirpc
 //@       direction == "client is too old; upgrade the VGI extension/client to a version supporting protocol_version " + s.protocolVersion + "."
 //@   ensures [local_direction_server] result != nil && !(major < serverMajor || (major == serverMajor && minor < serverMinor)) ==>
 //@       direction == "server is too old; upgrade the VGI worker to a version supporting protocol_version " + clientVersion + "."
+
+// The facts assumed about semverRegex (trusted/vgirpc.spec: canonicalSemver, semverPart) are
+// facts about this reference pattern; that the pattern the code compiles denotes the same
+// language, with the same three capture groups, is an obligation.
+//@ regex semverRegex [C10] == `^(0|[1-9][0-9]*)\.(0|[1-9][0-9]*)\.(0|[1-9][0-9]*)$`
